@@ -45,3 +45,10 @@ def _has_nonstr_key(m) -> bool:
 @matcher("F9_nonstr_dict_key")
 def _f9(v):
     return v["oracle"] == "C15.roundtrip_exact" and _has_nonstr_key(v["case"].get("value"))
+
+
+@matcher("F7_min_successful_failfast_reason")
+def _f7(v):
+    c = v["case"]
+    return (v["oracle"] == "C09.reason_consistent" and c.get("min") is not None and c.get("count") is None
+            and c.get("pct") in (None, "None") and c.get("f", 0) > 0 and v["detail"].get("reason") == "ALL_COMPLETED")
